@@ -265,7 +265,9 @@ def rule_d(chk, prog):
         return
     guards = [n for n in cfg.live_nodes() if n.kind == "test" and any(isinstance(x, ast.Name) and x.id == W for x in ast.walk(n.ast))]
     guards += [n for n in cfg.live_nodes() if n.kind == "test" and isinstance(n.ast, ast.Compare) and norm(n.ast.left) == G
-               and isinstance(n.ast.ops[0], ast.Gt) and isinstance(n.ast.comparators[0], ast.Constant) and n.ast.comparators[0].value == 0]
+               and isinstance(n.ast.ops[0], ast.GtE) and isinstance(n.ast.comparators[0], ast.Constant) and n.ast.comparators[0].value == 0]
+    # (the model's convention, used by check_groundwater_table and the initial conditions: a depth >= 0 is a present table, negative means none -
+    # a guard `depth > 0` would let the roots pass a table lying exactly at the surface: F51)
     removed = {(g.id, False) for g in guards} | {(c.id, True) for c in caps} | {(c.id, False) for c in caps}
     cap_true = {(c.id, True) for c in caps}
     def allowed(e) -> bool:
